@@ -11,6 +11,7 @@ HERE = os.path.dirname(os.path.abspath(__file__))
 VERIF = os.path.dirname(HERE)
 REPO = os.environ.get("VERIF_REPO", "/repo")
 CACHE = os.environ.get("VERIF_CACHE", os.path.join(VERIF, ".cache"))
+BIN_CACHE = os.environ.get("VERIF_BIN_CACHE", os.path.join(VERIF, ".cache"))   # built extractors (shared with mutant runs)
 LLVM = "/usr/lib/llvm-14"
 
 sys.path.insert(0, os.path.join(HERE, "rules"))
@@ -49,7 +50,7 @@ def tree_hash(paths, exts=None, extra=""):
 # ---------------------------------------------------------------------------------------------
 def build_cfacts():
     src = os.path.join(HERE, "cfacts", "cfacts.cpp")
-    out = os.path.join(CACHE, "bin", "cfacts")
+    out = os.path.join(BIN_CACHE, "bin", "cfacts")
     if os.path.exists(out) and os.path.getmtime(out) >= os.path.getmtime(src):
         return out
     os.makedirs(os.path.dirname(out), exist_ok=True)
